@@ -17,6 +17,11 @@ import (
 
 var tsMu sync.Mutex
 
+// crossCheck: thorough tier — every unsat answer is re-checked by the other solver family.
+var crossCheck bool
+
+var noAnyIdx = os.Getenv("GOVC_NOANYIDX") != ""
+
 type solverSpec struct {
 	name string
 	argv func(file string, timeoutS int, seed int) []string
@@ -119,7 +124,7 @@ func (e *Engine) discharge1(o *Obligation, dir string, idx int, timeoutS int, se
 	}
 	c := o.Ctx
 	tsMu.Lock() // obligations are discharged concurrently; these two steps create terms
-	hyps := relevantFacts(c, o.NFacts, o.Goal, o.Gap, o.PC)
+	hyps := relevantFactsB(c, o.NFacts, o.Goal, o.Gap, o.PC, o.BasicOnly)
 	hyps = append(hyps, preInstantiate(e.ts, hyps, o.Goal)...)
 	tsMu.Unlock()
 	var gv []*Term
@@ -177,6 +182,15 @@ func (e *Engine) discharge1(o *Obligation, dir string, idx int, timeoutS int, se
 		r := runSolver(context.Background(), solvers[0], write(solvers[0]), quick, seed)
 		all = append(all, r)
 		if r.status == "unsat" || r.status == "sat" {
+			win = &r
+		}
+	}
+	// a vacuity cover that z3 refutes is cross-checked: "unreachable" is only reported when cvc5 does not find the
+	// point reachable (z3 5.1.0 was seen to answer unsat on a satisfiable problem over nested sequences)
+	if coverOnly && win != nil && win.status == "unsat" {
+		r := runSolver(context.Background(), solvers[1], write(solvers[1]), 8, seed)
+		all = append(all, r)
+		if r.status == "sat" {
 			win = &r
 		}
 	}
@@ -260,6 +274,28 @@ func (e *Engine) discharge1(o *Obligation, dir string, idx int, timeoutS int, se
 		o.Solver = "none"
 		return
 	}
+	// thorough tier: an unsat answer of one solver family is re-checked by the other one on the full problem; a
+	// contradicting "sat" is reported as a failed obligation (solver disagreement), never silently accepted
+	if crossCheck && !coverOnly && win.status == "unsat" {
+		other := solvers[1] // cvc5
+		if strings.HasPrefix(win.solver, "cvc5") {
+			other = solvers[0]
+		}
+		r := runSolver(context.Background(), other, write(other), 8, seed)
+		switch r.status {
+		case "unsat":
+			o.CrossChecked = "confirmed by " + other.name
+		case "sat":
+			o.Status = "conflict"
+			o.Solver = win.solver + " vs " + other.name
+			o.Time = win.secs + r.secs
+			o.Output = fmt.Sprintf("SOLVER DISAGREEMENT: %s answered unsat, %s answered sat on the same problem\n[%s %.2fs] %s", win.solver, other.name, other.name, r.secs, firstLines(r.output, 20))
+			o.SMTFile = file
+			return
+		default:
+			o.CrossChecked = "not confirmed (" + other.name + ": " + r.status + ")"
+		}
+	}
 	o.Status = win.status
 	o.Solver = win.solver
 	o.Time = win.secs
@@ -284,6 +320,10 @@ func firstLines(s string, n int) string {
 
 // relevantFacts keeps untriggered facts and those triggered facts whose trigger term occurs in the goal or in a kept fact.
 func relevantFacts(c *FnCtx, n int, goal *Term, gap [2]int, pc *Term) []*Term {
+	return relevantFactsB(c, n, goal, gap, pc, false)
+}
+
+func relevantFactsB(c *FnCtx, n int, goal *Term, gap [2]int, pc *Term, basicOnly bool) []*Term {
 	facts, trigs := c.facts[:n], c.triggers[:n]
 	// literals whose truth contradicts the obligation's path condition
 	contra := map[int]bool{}
@@ -314,6 +354,9 @@ func relevantFacts(c *FnCtx, n int, goal *Term, gap [2]int, pc *Term) []*Term {
 		}
 	}
 	skip := func(i int) bool {
+		if basicOnly && i < len(c.factTag) && c.factTag[i] != 0 {
+			return true
+		}
 		return excl[i] || (i >= gap[0] && i < gap[1] && i < len(c.factGuarded) && c.factGuarded[i])
 	}
 	reach := map[int]bool{}
@@ -484,7 +527,8 @@ func preInstantiate(ts *TermStore, hyps []*Term, goal *Term) []*Term {
 		return nil
 	}
 	collect(goal, map[int]bool{})
-	for round := 0; round < 2; round++ {
+	for round := 0; round < 4; round++ {
+		pass := round % 2
 		n0 := len(order)
 		for _, h := range append(append([]*Term{}, hyps...), out...) {
 			var qs []*Term
@@ -499,24 +543,30 @@ func preInstantiate(ts *TermStore, hyps []*Term, goal *Term) []*Term {
 						continue
 					}
 					for _, k := range order {
-						// any index term the goal uses is tried, whatever sequence it indexes there: lemmas about
-						// related sequences (a prefix kept by a call, the list before the loop) are needed at the same index
-						if done[[2]int{q.id, k.idx}] {
+						// first the positions the goal uses on this very sequence; in a second pass (pass == 1) any
+						// index term the goal uses, whatever sequence it indexes there: lemmas about related sequences
+						// (a prefix kept by a call, the list before the loop) are needed at the same index
+						if ((pass == 0 || noAnyIdx) && k.seq != p.args[0].id) || done[[2]int{q.id, k.idx}] {
 							continue
 						}
 						done[[2]int{q.id, k.idx}] = true
 						inst := ts.Subst(body, bv, ground[k])
 						nh := replacePositive(ts, h, q, inst, true, map[[2]int]*Term{})
+						// an existential the instance asserts (the witness of "every element of the sorted list is one
+						// of the old elements", ...) gets a name, so that the next round can instantiate at it
+						if os.Getenv("GOVC_NOHSK") == "" {
+							nh = ts.Not(ts.Skolemize(ts.Not(nh)))
+						}
 						out = append(out, nh)
-						collect(inst, map[int]bool{})
-						if len(out) >= 60 {
+						collect(nh, map[int]bool{})
+						if len(out) >= 150 {
 							return out
 						}
 					}
 				}
 			}
 		}
-		if len(order) == n0 {
+		if len(order) == n0 && pass == 1 {
 			break
 		}
 	}
